@@ -256,3 +256,36 @@ def join_collisions(ctx, mk_search):
             ctx.fail(pair.get("classifier", "C07-join-ambiguous") if ra[2] == rb[2] else "C07-md5-collision",
                      "two different fits have the same identifier: " + pair.get("note", ""), case,
                      {"identifier": ra[0], "tokens_a": ra[1][-8:], "tokens_b": rb[1][-8:]})
+
+
+# ---------------------------------------------------------------------------------------------
+# searches against the generated table (lean/AFModel/Generated/C07.lean, lean/AFModel/IdentSearch.lean)
+
+
+def correspond_search(ctx, search, case, pyval, tokens_equal):
+    """`Identifier(search).hash_list` vs tokens (searchVal row settings), row looked up by class name in the table
+    generated from the source; the settings are the search's attributes (identifying or not - the model selects)"""
+    cls = type(search)
+    settings = {}
+    for k, v in search.__dict__.items():
+        if isinstance(k, str) and not _private(k) and (v is None or isinstance(v, (bool, int, float, str))):
+            settings[k] = v
+    for f in getattr(cls, "__identifier_fields__", ()):
+        try:
+            settings[str(f)] = getattr(search, f)
+        except AttributeError:
+            pass
+    ans = ctx.lean.ask({"p": "C07", "kind": "search", "cls": cls.__name__, "settings": [[k, pyval(v)] for k, v in settings.items()]})
+    if "driver_error" in ans:
+        ctx.disagree("driver-search", case, None, ans)
+        return
+    if not ans.get("known"):
+        ctx.disagree("C07.search-table.class-missing", case, cls.__name__, None)
+        return
+    ctx.hit("search-table-compared")
+    impl = Identifier(search).hash_list
+    if not tokens_equal(impl, ans["tokens"]):
+        _, a, b = _first_diff(impl, ans["tokens"], tokens_equal)
+        ctx.disagree("C07.search-table.tokens", case, a, b)
+    if list(ans["idf"]) != [str(f) for f in cls.__identifier_fields__]:
+        ctx.disagree("C07.search-table.stale", case, list(cls.__identifier_fields__), ans["idf"])
